@@ -98,6 +98,18 @@ partial def repContents : Rule → List Rule
   | .prec _ _ a => repContents a
   | _ => []
 
+partial def hasPrec : Rule → Bool
+  | .prec _ _ _ => true
+  | .seq a b => hasPrec a || hasPrec b
+  | .choice a b => hasPrec a || hasPrec b
+  | .rep a => hasPrec a
+  | .rep1 a => hasPrec a
+  | .field _ a => hasPrec a
+  | .alias _ _ a => hasPrec a
+  | .token a => hasPrec a
+  | .immToken a => hasPrec a
+  | _ => false
+
 partial def hasAlias : Rule → Bool
   | .alias _ _ _ => true
   | .seq a b => hasAlias a || hasAlias b
@@ -143,6 +155,116 @@ def findAux (g : Grammar) (tbl : Table) (prods : List (Nat × List Nat × Nat)) 
       | none => aux) aux
   (List.range (auxSyms.length + 1)).foldl (fun aux _ => pass aux) []
 
+
+/-- a cheap bound on the size of `expand` (so that the checked `coverOK` is only run on small expansions) -/
+def expandCount (g : Grammar) : Nat → Rule → Nat
+  | 0, _ => 1
+  | f + 1, r =>
+    match r with
+    | .sym x => match g.body x with
+      | some b => if !isTerminalBody b && g.inline.contains x then expandCount g f b else 1
+      | none => 1
+    | .seq a b => min 1000000 (expandCount g f a * expandCount g f b)
+    | .choice a b => min 1000000 (expandCount g f a + expandCount g f b)
+    | .rep _ => 2
+    | .field _ a => expandCount g f a
+    | .alias _ _ a => expandCount g f a
+    | .prec _ _ a => expandCount g f a
+    | _ => 1
+
+def expandSmall (g : Grammar) (tbl : Table) (aux : AuxMap) : Bool :=
+  (List.range tbl.symbolCount).all fun y => y < tbl.tokenCount ||
+    match aux.lookup y with
+    | some a => expandCount g (relFuel g) a ≤ 2000
+    | none => match g.body (tbl.symName y) with
+      | some b => expandCount g (relFuel g) b ≤ 2000
+      | none => true
+
+/-- the canonical production set: the flattening of every rule, with the production ids the table uses
+(untrusted: `coverOK` checks the sequences, `completeOK` the ids) -/
+def canonP (g : Grammar) (tbl : Table) (aux : AuxMap) (prods : List Prod) : List Prod :=
+  let pidFor := fun (A : Nat) (syms : List Nat) =>
+    let cands := prods.filter fun p => p.1 == A && p.2.1.length == syms.length
+    match cands.find? (fun p => p.2.1 == syms) with
+    | some p => p.2.2
+    | none =>
+      match cands.find? (fun p => (p.2.1.zip syms).all fun ab => ab.1 == ab.2 || ab.2 ≥ tbl.tokenCount) with
+      | some p => p.2.2
+      | none => (cands.head?.map (·.2.2)).getD 0
+  ((List.range tbl.symbolCount).flatMap fun y =>
+    if y < tbl.tokenCount then [] else
+    match aux.lookup y with
+    | some a => (y, [y, y], pidFor y [y, y]) :: (expand g tbl aux (relFuel g) a).map fun sy => (y, sy, pidFor y sy)
+    | none => match g.body (tbl.symName y) with
+      | some b => (expand g tbl aux (relFuel g) b).map fun sy => (y, sy, pidFor y sy)
+      | none => []).eraseDups
+
+/-! untrusted computation of the LR annotation (validated by `completeOK`) -/
+
+def startSymbol (tbl : Table) : Option Nat :=
+  ((tbl.gotos.getD 1 []).find? fun e => effective (tbl.actions e.2 0) == [Action.accept]).map (·.1)
+
+def computeFirst (tbl : Table) (P : List Prod) : List Nat × List (Nat × List Nat) :=
+  let lhss := (P.map (·.1)).eraseDups
+  let step := fun (st : List Nat × List (Nat × List Nat)) =>
+    let ann : Ann := { nullable := st.1, first := st.2 }
+    let nullable := lhss.filter fun A => P.any fun p => p.1 == A && p.2.1.all (nullOf tbl ann)
+    let first := lhss.map fun A =>
+      (A, ((P.filter fun p => p.1 == A).flatMap fun p =>
+        let rec pref : List Nat → List Nat
+          | [] => []
+          | Y :: ys => firstOf tbl ann Y ++ (if nullOf tbl ann Y then pref ys else [])
+        pref p.2.1).eraseDups)
+    (nullable, first)
+  (List.range (lhss.length + 3)).foldl (fun st _ => step st) ([], [])
+
+partial def annLoop (tbl : Table) (P : List Prod) (allow : Allow) (ann0 : Ann) (sets : Array (Std.HashSet Item))
+    (work : List (Nat × Item)) (budget : Nat) : Array (Std.HashSet Item) :=
+  match work, budget with
+  | [], _ => sets
+  | _, 0 => sets
+  | (s, it) :: rest, b + 1 =>
+    let add := fun (acc : Array (Std.HashSet Item) × List (Nat × Item)) (q : Nat) (x : Item) =>
+      if q < acc.1.size && !(acc.1[q]!.contains x) then (acc.1.modify q (·.insert x), (q, x) :: acc.2) else acc
+    if it.dot ≥ it.rhs.length then annLoop tbl P allow ann0 sets rest b else
+    match it.cur with
+    | none => annLoop tbl P allow ann0 sets rest b
+    | some X =>
+      if X < tbl.tokenCount then
+        match effective (tbl.actions s X) with
+        | [.shift s' false _] =>
+          let r := add (sets, rest) s' it.adv
+          annLoop tbl P allow ann0 r.1 r.2 b
+        | _ => annLoop tbl P allow ann0 sets rest b
+      else
+        let q := tbl.goto s X
+        let r := if q != 0 then add (sets, rest) q it.adv else (sets, rest)
+        let las := firstSeq tbl ann0 (it.rhs.drop (it.dot + 1)) it.la
+        -- where does the single symbol of a unit production lead from here?
+        let target := fun (Y : Nat) =>
+          if Y < tbl.tokenCount then
+            match effective (tbl.actions s Y) with
+            | [.shift s' false _] => s'
+            | _ => 0
+          else tbl.goto s Y
+        let r := (P.filter fun p => p.1 == X && allow it.ctx.1 it.ctx.2 p).foldl (fun acc p =>
+          match p.2.1 with
+          | [Y] =>
+            -- unit reduction removed here: `Y` leads directly where the goto on `X` would
+            if q != 0 && target Y == q && Y != X then add acc s { it with sub := some p }
+            else las.foldl (fun acc x => add acc s ⟨X, p.2.1, p.2.2, 0, x, none⟩) acc
+          | _ => las.foldl (fun acc x => add acc s ⟨X, p.2.1, p.2.2, 0, x, none⟩) acc) r
+        annLoop tbl P allow ann0 r.1 r.2 b
+
+def computeAnn (tbl : Table) (P : List Prod) (allow : Allow) (start : Nat) : Ann :=
+  let fn := computeFirst tbl P
+  let ann0 : Ann := { nullable := fn.1, first := fn.2 }
+  let startItems := (P.filter fun p => p.1 == start).map fun p => (⟨start, p.2.1, p.2.2, 0, 0, none⟩ : Item)
+  let sets0 : Array (Std.HashSet Item) := Array.replicate tbl.stateCount {}
+  let sets0 := if 1 < sets0.size then sets0.modify 1 (fun s => startItems.foldl (·.insert ·) s) else sets0
+  let sets := annLoop tbl P allow ann0 sets0 (startItems.map fun it => (1, it)) 400000
+  { ann0 with items := sets.map (·.toList) }
+
 def onReady (s : GState) : GState × String :=
   let tbl := Table.ofLines s.tableLines.toList
   let closed := tableClosed tbl
@@ -160,16 +282,44 @@ def onReady (s : GState) : GState × String :=
       if r.2 then some r.1 else none
     else none
   let safe := tableSafe tbl
+  let prods := if safe && tbl.stateCount ≤ 250 then prodList tbl else []
+  let aux := if safe && tbl.stateCount ≤ 250 then findAux g tbl prods else []
   let (rel, nprods, badProd) :=
     if safe && simple && tbl.stateCount ≤ 250 then
-      let prods := prodList tbl
-      let aux := findAux g tbl prods
       let ok := relOK g tbl aux
       let bad := match prods.find? (fun p => !prodOK g tbl aux p) with
         | some p => s!"{tbl.symName p.1}->{p.2.1.map tbl.symName}"
         | none => if ok then "-" else "start"
       (if ok then "true" else "false", prods.length, bad)
     else ("na", 0, "-")
+  -- completeness: `coverOK` (grammar.json ⊆ P, premise of `grammar_cover`) for the canonical flattening P,
+  -- and `completeOK` (the table is complete for P, premise of `table_complete`); both ⇒ `parser_complete`.
+  -- Without `coverOK` the table is still validated against its own productions.
+  let (cover, complete, nitems) :=
+    if safe && tbl.stateCount ≤ 100 && (s.kind == "cfg" || s.kind == "zoo") then
+      match startSymbol tbl with
+      | some st =>
+        let small := expandSmall g tbl aux
+        let Pc := if small then canonP g tbl aux prods else []
+        let cov := small && coverOK g tbl aux Pc st
+        let covWhy := if cov then "true" else if !small then "false:big" else
+          match (List.range tbl.symbolCount).find? (fun y => y ≥ tbl.tokenCount && !ntCoverOK g tbl aux Pc y) with
+          | some y => s!"false:{tbl.symName y}"
+          | none => if !tokInj tbl then "false:tokens" else "false:start"
+        let P := if cov then Pc else prods
+        let allow := auxAllow aux
+        let ann := computeAnn tbl P allow st
+        let n := (ann.items.toList.map List.length).foldl (· + ·) 0
+        if n ≤ 6000 then
+          let ok := completeOK tbl P allow ann st
+          let why := if ok then "" else
+            match (List.range tbl.stateCount).findSome? (fun q => ((ann.itemsOf q).find? fun it => !itemOK tbl P allow ann q it).map fun it => (q, it)) with
+            | some (q, it) => s!":state{q}:{tbl.symName it.lhs}->{it.rhs.map tbl.symName}@{it.dot}/{tbl.symName it.la}"
+            | none => if !firstOK tbl P ann then ":first" else if !startItemsOK tbl P ann st then ":start" else ":other"
+          (covWhy.replace " " "_", (if ok then "true" else "false" ++ why.replace " " "_"), n)
+        else (covWhy.replace " " "_", "na", n)
+      | none => ("na", "nostart", 0)
+    else ("na", "na", 0)
   let opOK := match s.optable with
     | some t => decide (g.rules = opGrammarRules t)
     | none => true
@@ -177,7 +327,7 @@ def onReady (s : GState) : GState × String :=
     let i := tbl.syms.getD t.sym default
     i.name == t.tok.name && t.sym < tbl.tokenCount
   ({ s with tbl := tbl, closed := closed, g := g, oracle := oracle, opOK := opOK, dynO := dynO },
-   s!"G {s.gid} kind={s.kind} closed={closed} rootsafe={rootSafe tbl} tablesafe={safe} rel={rel} relscope={relScope g tbl} prods={nprods} badprod={badProd.replace " " "_"} states={tbl.stateCount} symbols={tbl.symbolCount} rules={g.rules.length} " ++
+   s!"G {s.gid} kind={s.kind} closed={closed} rootsafe={rootSafe tbl} tablesafe={safe} cover={cover} complete={complete} prec={g.rules.any fun e => hasPrec e.2} items={nitems} rel={rel} relscope={relScope g tbl} prods={nprods} badprod={badProd.replace " " "_"} states={tbl.stateCount} symbols={tbl.symbolCount} rules={g.rules.length} " ++
    s!"repconflict={suspiciousRepetitionCells tbl} simple={simple} oracle={oracle.isSome} dyn={dynO.isSome} L={s.exh} lang={langSize} fix={fix} opgrammar={opOK} terms={termsOK} nterm={s.terms.size}")
 
 def drvName : Outcome → String
